@@ -103,6 +103,8 @@ def is_exception_class(prog: Program, cls: str) -> bool:
 
 
 def run(ck: Check, prog: Program) -> None:
+    from .common import dispatcher_program
+    prog = dispatcher_program(prog)
     roles = dispatchers(prog)
     ck.explain('Exception-escape analysis (abstract interpretation over the CFG with exception edges, sentinel-kind '
                'domain, context-sensitive callee analysis) of both dispatch entry points: no exception class that is an '
@@ -177,6 +179,29 @@ def run(ck: Check, prog: Program) -> None:
                    '(assertions missing or fields written elsewhere): a response object with both or neither can be serialised')
     # BatchResponse.to_json: a list of element wire forms, or the batch-level error object
     _batch_to_json(ck, prog)
+    # ---- ID-SHAPE: the id a response echoes is the one Request.from_json admitted: string, integer (not bool) or null ----
+    from . import c06
+    mprog = c06.model_program(prog)
+    rf = mprog.func(V20 + '.Request.from_json')
+    ck.functions.add(rf.qualname)
+    c06._field_guards(ck, mprog, rf)
+    # ---- ERROR-SHAPE: an error object is built with exactly the integer code and string message it was given -----------
+    from .sentinel import sent_truth
+    from .wire import ctor_precedence_problems
+    ctor = prog.func(EXC + '.JsonRpcError.__init__')
+    ck.functions.add(ctor.qualname)
+    flagged, n_c = sent_truth(prog, Interp(prog), ctor, scalar_rule=True)
+    ck.ob('ERROR-SHAPE', 'JsonRpcError.__init__ keeps the given code and message (no truthiness on protocol scalars)', not flagged,
+          sample={'conditions': n_c})
+    for s_, why, kinds in flagged:
+        ck.finding('ERROR-SHAPE', ctor.qualname, f'truthiness of {norm(s_.expr)} in {s_.context}', ctor.module.rel, s_.node.line,
+                   f'`{norm(s_.node.ast)[:100]}`: {why}. An error built with code 0 or message "" falls back to the class default, which is None '
+                   f'for the base class: the response carries "code": null / "message": null and dispatch returns (None,) as error codes')
+    eci = prog.cls(EXC + '.JsonRpcError')
+    pp = ctor_precedence_problems(prog, eci)
+    ck.ob('ERROR-SHAPE', 'JsonRpcError.__init__: a given code / message wins over the class-level default', not pp)
+    for c_, m_, l_ in pp:
+        ck.finding('ERROR-SHAPE', ctor.qualname, c_, eci.module.rel, l_, m_)
     ck.extra['call_sites_resolved'] = interp.calls_resolved
     ck.extra['contexts_analysed'] = interp.contexts
     ck.extra['assumed_total_callees'] = {k: len(v) for k, v in sorted(interp.assumed_total.items())}
